@@ -26,6 +26,7 @@ CHECKS = {
             dict(name="seq", run="^TestPropSequential$", checks=(10000, 60000), shards=(4, 16)),
             dict(name="conc", run="^TestPropConcurrent$", checks=(500, 3000), shards=(4, 16)),
             dict(name="trickle", run="^TestPropTrickle$", checks=(12, 60), shards=(4, 8), shrinktime="1s"),
+            dict(name="backlog", run="^TestPropBacklogRestart$", checks=(1500, 12000), shards=(4, 16), shrinktime="5s"),
             dict(name="regress", run="^TestRegress", shards=(1, 1)),
         ],
     ),
